@@ -338,9 +338,13 @@ class Check:
         self.problems.append((kind, text))
         self.log("PROBLEM(%s): %s" % (kind, text[:2000]))
 
-    def fail_input(self, what, case):
-        """record a concrete failing input found by the direct property oracle"""
-        self.failing.append({"what": what, "case": case})
+    def fail_input(self, what, case, key=None):
+        """record a concrete failing input found by the direct property oracle;
+        key identifies the class of input a known finding is listed under"""
+        f = {"what": what, "case": case}
+        if key:
+            f["key"] = key
+        self.failing.append(f)
 
     # -- standard proof step
     def proof_step(self, extra_targets=None, timeout=1500):
